@@ -1910,7 +1910,612 @@ theorem inv_step (w : World K) (op : Op K) (hs : op.safe = true) (h : w.Inv) : (
   | fromFields times fids m => simp [Op.safe] at hs
   | poke sid i vals => simp [Op.safe] at hs
 
+theorem getElem?_set_other {α : Type} (l : List α) (i j : Nat) (a : α) (h : i ≠ j) :
+    (l.set i a)[j]? = l[j]? := List.getElem?_set_ne h
+
+theorem updStore_other (w : World K) (sid sid' : Nat) (f : Store K Nat → Store K Nat × Option Err)
+    (h : sid' ≠ sid) : (updStore w sid' f).1.stores[sid]? = w.stores[sid]? := by
+  rw [updStore_stores]
+  cases w.stores[sid']? with
+  | none => rfl
+  | some s => exact List.getElem?_set_ne h
+
+/-- an operation that does not write to storage `sid` leaves the object `stores[sid]` as it
+is (its frame ids, times, mode, template) -/
+theorem stores_step_other (w : World K) (op : Op K) (sid : Nat) (s : Store K Nat)
+    (hw : op.writesTo sid = false) (hs : w.stores[sid]? = some s) :
+    (step w op).1.stores[sid]? = some s := by
+  have hlt : sid < w.stores.length := (List.getElem?_eq_some_iff.mp hs).1
+  have push : ∀ s' : Store K Nat, (w.stores ++ [s'])[sid]? = some s := by
+    intro s'; rw [List.getElem?_append_left hlt]; exact hs
+  cases op with
+  | newField fi vals => exact hs
+  | setField fid vals => simp only [step]; cases w.fields[fid]? <;> exact hs
+  | newStore m => exact push _
+  | setMode sid' m =>
+    simp only [Op.writesTo, beq_eq_false_iff_ne, ne_eq] at hw
+    simp only [step]; rw [updStore_other _ _ _ _ hw]; exact hs
+  | start sid' fid =>
+    simp only [Op.writesTo, beq_eq_false_iff_ne, ne_eq] at hw
+    simp only [step]
+    cases w.fields[fid]? with
+    | none => exact hs
+    | some p => simp only; rw [updStore_other _ _ _ _ hw]; exact hs
+  | append sid' fid t =>
+    simp only [Op.writesTo, beq_eq_false_iff_ne, ne_eq] at hw
+    simp only [step]
+    cases w.fields[fid]? with
+    | none => exact hs
+    | some p => simp only; rw [updStore_other _ _ _ _ hw]; exact hs
+  | endW sid' =>
+    simp only [step]
+    by_cases h : sid' = sid
+    · subst h
+      rw [updStore_stores, hs]
+      simp only
+      rw [List.getElem?_set_self hlt]
+    · rw [updStore_other _ _ _ _ h]; exact hs
+  | clear sid' b =>
+    simp only [Op.writesTo, beq_eq_false_iff_ne, ne_eq] at hw
+    simp only [step]; rw [updStore_other _ _ _ _ hw]; exact hs
+  | read sid' i =>
+    simp only [step]
+    cases w.stores[sid']? with
+    | none => exact hs
+    | some s1 => simp only; cases getField s1 i <;> exact hs
+  | items sid' =>
+    simp only [step]
+    cases w.stores[sid']? with
+    | none => exact hs
+    | some s1 => simp only; cases Storage.items s1 <;> exact hs
+  | slice sid' a b =>
+    simp only [step]
+    cases w.stores[sid']? with
+    | none => exact hs
+    | some s1 => simp only; cases getSlice s1 a b <;> exact hs
+  | extractTimeRange sid' r =>
+    simp only [step]
+    cases w.stores[sid']? with
+    | none => exact hs
+    | some s1 =>
+      simp only
+      cases Storage.extractTimeRange s1 r with
+      | error e => exact hs
+      | ok s' => exact push _
+  | extractField sid' fid label =>
+    simp only [step]
+    cases w.stores[sid']? with
+    | none => exact hs
+    | some s1 =>
+      simp only
+      cases extractFieldPlan s1 fid label with
+      | error e => exact hs
+      | ok r =>
+        obtain ⟨fi, i, tmpl⟩ := r
+        simp only
+        cases extractFieldBuild s1 tmpl _ with
+        | error e => exact hs
+        | ok s' => exact push _
+  | viewRead sid' fid k =>
+    simp only [step]
+    cases w.stores[sid']? with
+    | none => exact hs
+    | some s1 =>
+      simp only
+      cases viewCreate s1 fid with
+      | error e => exact hs
+      | ok fidx =>
+        simp only
+        cases viewGet s1 fidx k with
+        | error e => exact hs
+        | ok r => obtain ⟨fi, id, j, m⟩ := r; exact hs
+  | viewItems sid' fid =>
+    simp only [step]
+    cases w.stores[sid']? with
+    | none => exact hs
+    | some s1 =>
+      simp only
+      cases viewCreate s1 fid with
+      | error e => exact hs
+      | ok fidx => simp only; split <;> exact hs
+  | apply sid' f out =>
+    simp only [step]
+    cases w.stores[sid']? with
+    | none => exact hs
+    | some s1 =>
+      simp only
+      split_ifs
+      · exact hs
+      · split
+        · exact hs
+        · split
+          · exact push _
+          · rename_i o oid heq _
+            simp only [Op.writesTo, beq_eq_false_iff_ne, ne_eq] at hw
+            simp only
+            rw [List.getElem?_set_ne hw]; exact hs
+          · rename_i o e oid heq _
+            simp only [Op.writesTo, beq_eq_false_iff_ne, ne_eq] at hw
+            simp only
+            rw [List.getElem?_set_ne hw]; exact hs
+          · exact hs
+          · exact hs
+  | fromFields times fids m =>
+    simp only [step]
+    split
+    · exact hs
+    · exact hs
+    · split_ifs
+      · exact hs
+      · exact hs
+      · split
+        · exact hs
+        · exact push _
+  | poke sid' i vals =>
+    simp only [step]
+    cases w.stores[sid']? with
+    | none => exact hs
+    | some s1 => simp only; cases s1.frames[i]? <;> exact hs
+
+/-- what a reader sees of a storage depends only on the storage object and on the content of
+its (private) buffers -/
+theorem view_of_heapExt (w w' : World K) (h : w.Inv) (hx : HeapExt w w') (sid : Nat)
+    (s : Store K Nat) (hs : w.stores[sid]? = some s) (hs' : w'.stores[sid]? = some s) :
+    w'.view sid = w.view sid := by
+  unfold World.view
+  rw [hs, hs']
+  simp only [Option.map_some, Option.some.injEq]
+  unfold Store.mapFrames
+  congr 1
+  apply List.map_congr_left
+  intro id hid
+  obtain ⟨h1, h2⟩ := h.2 s (List.mem_of_getElem? hs) id hid
+  exact hx.2 id h1 h2
+
+/-- one step that does not write to `sid`: nothing a reader can see of `sid` changes -/
+theorem view_step_other (w : World K) (op : Op K) (sid : Nat) (h : w.Inv) (hsafe : op.safe = true)
+    (hw : op.writesTo sid = false) (hlt : sid < w.stores.length) :
+    (step w op).1.view sid = w.view sid := by
+  obtain ⟨s, hs⟩ : ∃ s, w.stores[sid]? = some s := ⟨w.stores[sid], List.getElem?_eq_getElem hlt⟩
+  exact view_of_heapExt w _ h (heapExt_step w op hsafe) sid s hs (stores_step_other w op sid s hw hs)
+
+theorem stores_length_step (w : World K) (op : Op K) (sid : Nat) (hlt : sid < w.stores.length) :
+    sid < (step w op).1.stores.length := by
+  by_cases hw : op.writesTo sid = false
+  · have := stores_step_other w op sid w.stores[sid] hw (List.getElem?_eq_getElem hlt)
+    exact (List.getElem?_eq_some_iff.mp this).1
+  · -- the writing operations replace an element of the list or leave it alone
+    cases op with
+    | setMode sid' m => simp only [step]; rw [updStore_stores]; split <;> simp [hlt]
+    | start sid' fid =>
+      simp only [step]
+      cases w.fields[fid]? with
+      | none => exact hlt
+      | some p => simp only; rw [updStore_stores]; split <;> simp [hlt]
+    | append sid' fid t =>
+      simp only [step]
+      cases w.fields[fid]? with
+      | none => exact hlt
+      | some p => simp only; rw [updStore_stores]; split <;> simp [hlt]
+    | clear sid' b => simp only [step]; rw [updStore_stores]; split <;> simp [hlt]
+    | apply sid' f out =>
+      simp only [step]
+      cases w.stores[sid']? with
+      | none => exact hlt
+      | some s1 =>
+        simp only
+        split_ifs
+        · exact hlt
+        · split
+          · exact hlt
+          · split <;> simp <;> omega
+    | _ => simp [Op.writesTo] at hw
+
+/-- **frames are immutable**: whatever is done in the world that is not a write to storage
+`sid` itself - in-place changes of the source fields after they were appended, changes of
+fields read back from this or any other storage (`storage[i]`, `view_field`), new fields, reads,
+writing sessions on other storages, derived storages (`extract_*`, `copy`, `apply`) - the times
+and the content of every frame of `sid` stay exactly as they were. -/
+theorem frames_immutable (ops : List (Op K)) :
+    ∀ (w : World K) (sid : Nat), w.Inv → sid < w.stores.length →
+      (∀ op ∈ ops, op.safe = true ∧ op.writesTo sid = false) →
+      (run w ops).view sid = w.view sid ∧ (run w ops).Inv := by
+  induction ops with
+  | nil => intro w sid h _ _; exact ⟨rfl, h⟩
+  | cons op ops ih =>
+    intro w sid h hlt hops
+    obtain ⟨h1, h2⟩ := hops op (by simp)
+    have hstep := view_step_other w op sid h h1 h2 hlt
+    obtain ⟨e1, e2⟩ := ih (step w op).1 sid (inv_step w op h1 h) (stores_length_step w op sid hlt)
+      (fun o ho => hops o (by simp [ho]))
+    exact ⟨by simp only [run, List.foldl_cons] at e1 ⊢; rw [e1, hstep], by simpa [run] using e2⟩
+
+/-- the privacy invariant holds along every safe operation sequence from the empty world -/
+theorem inv_run (ops : List (Op K)) : ∀ w : World K, w.Inv → (∀ op ∈ ops, op.safe = true) →
+    (run w ops).Inv := by
+  induction ops with
+  | nil => intro w h _; exact h
+  | cons op ops ih =>
+    intro w h hops
+    exact ih _ (inv_step w op (hops op (by simp)) h) (fun o ho => hops o (by simp [ho]))
+
+theorem inv_empty : (World.empty : World K).Inv := by
+  simp [World.Inv, World.empty]
+
+/-- the operation on storage `sid` that a world operation amounts to, as the storage sees it:
+an `append` carries the content of the source field's buffer *at this moment* -/
+def project (w : World K) (sid : Nat) : Op K → Option (SOp K (List K))
+  | .setMode s m => if s = sid then some (.setMode m) else none
+  | .start s fid => if s = sid then (w.fields[fid]?).map (fun p => .start p.1) else none
+  | .append s fid t =>
+    if s = sid then (w.fields[fid]?).map (fun p => .append p.1 t (w.deref p.2)) else none
+  | .clear s b => if s = sid then some (.clear b) else none
+  | _ => none
+
+theorem updStore_view (w : World K) (sid : Nat) (f : Store K Nat → Store K Nat × Option Err)
+    (s : Store K Nat) (hs : w.stores[sid]? = some s) :
+    (updStore w sid f).1.view sid = some ((f s).1.mapFrames w.deref) := by
+  have hlt : sid < w.stores.length := (List.getElem?_eq_some_iff.mp hs).1
+  unfold World.view
+  rw [updStore_stores, hs]
+  simp only
+  rw [List.getElem?_set_self hlt]
+  simp only [Option.map_some, Option.some.injEq]
+  have : (updStore w sid f).1.deref = w.deref := by
+    funext id; simp [World.deref, (updStore_heap w sid f).1]
+  rw [this]
+
+theorem mapFrames_congr {F G : Type} (g g' : F → G) (s : Store K F) (h : ∀ id ∈ s.frames, g id = g' id) :
+    s.mapFrames g = s.mapFrames g' := by
+  unfold Store.mapFrames
+  congr 1
+  exact List.map_congr_left h
+
+/-- **one world step, seen from storage `sid`** (every safe operation except `copy`/`apply`
+*into* `sid`, which `copy_apply_consistent` covers): the view of the storage - times, the
+content of every frame, mode, shape, template - moves exactly as the storage state machine
+moves on the projected operation, or does not move at all. -/
+theorem world_refines_store (w : World K) (op : Op K) (sid : Nat) (h : w.Inv) (hsafe : op.safe = true)
+    (hna : ∀ src f, op ≠ .apply src f (some sid)) (hlt : sid < w.stores.length) :
+    (step w op).1.view sid = (w.view sid).map (fun sv =>
+      match project w sid op with
+      | some sop => (sstep sv sop).1
+      | none => sv) := by
+  obtain ⟨s, hs⟩ : ∃ s, w.stores[sid]? = some s := ⟨w.stores[sid], List.getElem?_eq_getElem hlt⟩
+  have hview : w.view sid = some (s.mapFrames w.deref) := by simp [World.view, hs]
+  by_cases hw : op.writesTo sid = false
+  · have hp : project w sid op = none := by
+      cases op <;> simp_all [project, Op.writesTo]
+    rw [view_step_other w op sid h hsafe hw hlt, hp]
+    simp
+  · cases op with
+    | setMode sid' m =>
+      have : sid' = sid := by simpa [Op.writesTo] using hw
+      subst this
+      simp only [step, project, if_true]
+      rw [updStore_view _ _ _ s hs, hview]
+      simp [sstep, Store.mapFrames]
+    | start sid' fid =>
+      have : sid' = sid := by simpa [Op.writesTo] using hw
+      subst this
+      simp only [step, project, if_true]
+      cases hf : w.fields[fid]? with
+      | none => simp
+      | some p =>
+        simp only [Option.map_some]
+        rw [updStore_view _ _ _ s hs, hview]
+        simp only [Option.map_some, sstep, mapFrames_startWriting]
+    | append sid' fid t =>
+      have : sid' = sid := by simpa [Op.writesTo] using hw
+      subst this
+      simp only [step, project, if_true]
+      cases hf : w.fields[fid]? with
+      | none => simp
+      | some p =>
+        simp only [Option.map_some]
+        have hs1 : ({ w with heap := w.heap ++ [w.deref p.2] } : World K).stores[sid']? = some s := hs
+        rw [updStore_view _ _ _ s hs1, hview]
+        simp only [Option.map_some, sstep, Option.some.injEq]
+        -- the frames of `s` keep their content, the new id holds the copy
+        have hold : s.mapFrames ({ w with heap := w.heap ++ [w.deref p.2] } : World K).deref =
+            s.mapFrames w.deref := by
+          apply mapFrames_congr
+          intro id hid
+          exact deref_append w _ id (h.2 s (List.mem_of_getElem? hs) id hid).1
+        have hnew : ({ w with heap := w.heap ++ [w.deref p.2] } : World K).deref w.heap.length =
+            w.deref p.2 := by
+          simp [World.deref]
+        have := mapFrames_append ({ w with heap := w.heap ++ [w.deref p.2] } : World K).deref
+          s p.1 t w.heap.length
+        rw [hold, hnew] at this
+        rw [this]
+    | clear sid' b =>
+      have : sid' = sid := by simpa [Op.writesTo] using hw
+      subst this
+      simp only [step, project, if_true]
+      rw [updStore_view _ _ _ s hs, hview]
+      simp [sstep, mapFrames_clear]
+    | apply src f out =>
+      cases out with
+      | none => simp [Op.writesTo] at hw
+      | some o =>
+        have : o = sid := by simpa [Op.writesTo] using hw
+        subst this
+        exact absurd rfl (hna src f)
+    | _ => simp [Op.writesTo] at hw
+
+/-- the operations storage `sid` sees along a world operation sequence -/
+def wtrace (sid : Nat) : World K → List (Op K) → List (SOp K (List K))
+  | _, [] => []
+  | w, op :: ops => (project w sid op).toList ++ wtrace sid (step w op).1 ops
+
+/-- **C20 in the world, every operation sequence**: what a reader sees of storage `sid` after
+any sequence of safe operations (interleaved writing sessions on all storages, in-place
+mutation of every live field, reads, derived storages, ...) is the storage state machine run on
+the operations addressed to `sid`, in which every `append` carries the data the source field
+had at the moment of appending.  With `read_returns_appended_from` (at `F = List K`) this is
+the property statement: later changes to the source field or to fields read back do not alter
+stored frames. -/
+theorem world_run_refines (ops : List (Op K)) :
+    ∀ (w : World K) (sid : Nat), w.Inv → sid < w.stores.length →
+      (∀ op ∈ ops, op.safe = true ∧ ∀ src f, op ≠ .apply src f (some sid)) →
+      (run w ops).view sid = (w.view sid).map (fun sv => srun sv (wtrace sid w ops)) := by
+  induction ops with
+  | nil => intro w sid _ _ _; simp [run, wtrace, srun]
+  | cons op ops ih =>
+    intro w sid h hlt hops
+    obtain ⟨h1, h2⟩ := hops op (by simp)
+    have hstep := world_refines_store w op sid h h1 h2 hlt
+    have := ih (step w op).1 sid (inv_step w op h1 h) (stores_length_step w op sid hlt)
+      (fun o ho => hops o (by simp [ho]))
+    simp only [run, List.foldl_cons] at this ⊢
+    rw [this, hstep]
+    simp only [wtrace, Option.map_map]
+    congr 1
+    funext sv
+    simp only [Function.comp]
+    cases project w sid op with
+    | none => simp
+    | some sop => simp [srun]
+
+/-! ### derived storages in the world: what they hold when they are created -/
+
+theorem map_deref_fresh (w : World K) (x : List (List K)) :
+    (List.range' w.heap.length x.length).map ({ w with heap := w.heap ++ x } : World K).deref = x := by
+  apply List.ext_getElem
+  · simp
+  · intro i h1 h2
+    simp only [List.getElem_map, List.getElem_range', World.deref, Nat.one_mul]
+    rw [List.getD_eq_getElem?_getD, List.getElem?_append_right (by omega)]
+    simp at h2 ⊢
+    simp [h2]
+
+theorem view_push (w : World K) (s' : Store K Nat) (x : List (List K)) :
+    ({ w with heap := w.heap ++ x, stores := w.stores ++ [s'] } : World K).view w.stores.length =
+      some (s'.mapFrames ({ w with heap := w.heap ++ x } : World K).deref) := by
+  simp only [World.view, List.getElem?_concat_length, Option.map_some]
+  rfl
+
+/-- `extract_time_range` in the world: the new storage is what the value-level function gives
+on the view of the source, and it holds (shares) frame objects of the source -/
+theorem extract_time_range_world (w : World K) (sid : Nat) (r : TRange K) (s s' : Store K Nat)
+    (hs : w.stores[sid]? = some s) (hr : Storage.extractTimeRange s r = .ok s') :
+    (step w (.extractTimeRange sid r)).1.view w.stores.length = some (s'.mapFrames w.deref) ∧
+    Storage.extractTimeRange (s.mapFrames w.deref) r = .ok (s'.mapFrames w.deref) ∧
+    (step w (.extractTimeRange sid r)).1.heap = w.heap := by
+  refine ⟨?_, ?_, ?_⟩
+  · simp only [step, hs, hr]
+    have := view_push w s' []
+    simpa [World.view, World.deref] using this
+  · rw [mapFrames_extractTimeRange, hr]; rfl
+  · simp only [step, hs, hr]
+
+/-- `extract_field` in the world: the new storage holds fresh buffers whose contents are the
+member's slices of the source frames - the value-level `extract_field` of the source's view -/
+theorem extract_field_world (w : World K) (sid : Nat) (fid : FieldId) (label : Option String)
+    (s : Store K Nat) (fi tmpl : FieldInfo) (i : Nat) (hs : w.stores[sid]? = some s)
+    (hlen : s.times.length = s.frames.length)
+    (hp : extractFieldPlan s fid label = .ok (fi, i, tmpl)) :
+    ∃ sv', (step w (.extractField sid fid label)).1.view w.stores.length = some sv' ∧
+      extractFieldBuild (s.mapFrames w.deref) tmpl
+        ((s.mapFrames w.deref).frames.map (sliceFrame fi i)) = .ok sv' ∧
+      sv'.contents = (s.mapFrames w.deref).contents.map (fun p => (p.1, sliceFrame fi i p.2)) := by
+  have hb : extractFieldBuild s tmpl (List.range' w.heap.length
+      (s.frames.map (fun id => sliceFrame fi i (w.deref id))).length) = .ok
+        { times := s.times, frames := List.range' w.heap.length
+            (s.frames.map (fun id => sliceFrame fi i (w.deref id))).length,
+          mode := .truncateOnce, dataShape := some tmpl.shape, dtypeSet := false,
+          grid := some tmpl.grid, template := some tmpl } := by
+    unfold extractFieldBuild
+    rw [construct_ok _ _ _ _ (by simp [hlen])]
+    rfl
+  have hplanv : extractFieldPlan (s.mapFrames w.deref) fid label = .ok (fi, i, tmpl) := by
+    unfold extractFieldPlan at hp ⊢
+    simpa [Store.mapFrames] using hp
+  obtain ⟨sv', e1, e2, _⟩ := extract_field_consistent (s.mapFrames w.deref)
+    (by simp [Store.mapFrames, hlen]) fid label fi tmpl i hplanv
+  refine ⟨sv', ?_, e1, e2⟩
+  simp only [step, hs, hp, hb]
+  rw [view_push]
+  simp only [Option.some.injEq]
+  unfold extractFieldBuild at e1
+  rw [construct_ok _ _ _ _ (by simp [Store.mapFrames, hlen])] at e1
+  cases e1
+  simp only [Store.mapFrames]
+  congr 1
+  rw [map_deref_fresh]
+  simp
+
+/-- `copy` / `apply` in the world, without `out` or into another storage: the resulting
+storage is what the value-level `apply` (`copy_apply_consistent`) gives on the views, the
+appended frames being fresh buffers that hold the transformed data -/
+theorem apply_world (w : World K) (h : w.Inv) (sid : Nat) (f : Func K) (out : Option Nat)
+    (s : Store K Nat) (hs : w.stores[sid]? = some s) (hne : out ≠ some sid)
+    (outS : Option (Store K Nat))
+    (hout : (match out with
+      | none => some none
+      | some o => (w.stores[o]?).map some) = some outS) (o' : Store K Nat)
+    (hok : (applyTo s f.info (List.range' w.heap.length (applyNewVals w f s).length) outS).1 = some o') :
+    (applyTo (s.mapFrames w.deref) f.info (applyNewVals w f s)
+        (outS.map (Store.mapFrames w.deref))).1 =
+      some (o'.mapFrames ({ w with heap := w.heap ++ applyNewVals w f s } : World K).deref) ∧
+    (applyTo (s.mapFrames w.deref) f.info (applyNewVals w f s)
+        (outS.map (Store.mapFrames w.deref))).2 =
+      (applyTo s f.info (List.range' w.heap.length (applyNewVals w f s).length) outS).2 ∧
+    ∃ tgt, (match out with | none => tgt = w.stores.length | some o => tgt = o) ∧
+      ((applyTo s f.info (List.range' w.heap.length (applyNewVals w f s).length) outS).2 = none ∨
+        out ≠ none →
+      (step w (.apply sid f out)).1.view tgt =
+        some (o'.mapFrames ({ w with heap := w.heap ++ applyNewVals w f s } : World K).deref)) := by
+  have hnat := mapFrames_applyTo ({ w with heap := w.heap ++ applyNewVals w f s } : World K).deref
+    s f.info (List.range' w.heap.length (applyNewVals w f s).length) outS
+  rw [map_deref_fresh] at hnat
+  have hsv : s.mapFrames ({ w with heap := w.heap ++ applyNewVals w f s } : World K).deref =
+      s.mapFrames w.deref := by
+    apply mapFrames_congr
+    intro id hid
+    exact deref_append w _ id (h.2 s (List.mem_of_getElem? hs) id hid).1
+  have hov : outS.map (Store.mapFrames ({ w with heap := w.heap ++ applyNewVals w f s } : World K).deref) =
+      outS.map (Store.mapFrames w.deref) := by
+    cases outS with
+    | none => rfl
+    | some o0 =>
+      simp only [Option.map_some, Option.some.injEq]
+      apply mapFrames_congr
+      intro id hid
+      cases out with
+      | none => simp at hout
+      | some oid =>
+        simp only at hout
+        cases hoid : w.stores[oid]? with
+        | none => rw [hoid] at hout; simp at hout
+        | some o1 =>
+          rw [hoid] at hout
+          simp only [Option.map_some, Option.some.injEq] at hout
+          cases hout
+          exact deref_append w _ id (h.2 o0 (List.mem_of_getElem? hoid) id hid).1
+  rw [hsv, hov] at hnat
+  refine ⟨by rw [hnat, hok]; rfl, by rw [hnat], ?_⟩
+  cases out with
+  | none =>
+    refine ⟨w.stores.length, rfl, ?_⟩
+    intro hcond
+    have he : (applyTo s f.info (List.range' w.heap.length (applyNewVals w f s).length) outS).2 = none := by
+      rcases hcond with h1 | h1
+      · exact h1
+      · exact absurd rfl h1
+    simp only at hout
+    cases hout
+    simp only [step, hs, reduceCtorEq, ↓reduceIte]
+    cases hap : applyTo s f.info (List.range' w.heap.length (applyNewVals w f s).length) none with
+    | mk o e =>
+      rw [hap] at hok he
+      simp only at hok he
+      subst hok he
+      simp only
+      exact view_push w o' _
+  | some oid =>
+    refine ⟨oid, rfl, ?_⟩
+    intro _
+    simp only at hout
+    cases hoid : w.stores[oid]? with
+    | none => rw [hoid] at hout; simp at hout
+    | some o1 =>
+      rw [hoid] at hout
+      simp only [Option.map_some, Option.some.injEq] at hout
+      cases hout
+      have hlt : oid < w.stores.length := (List.getElem?_eq_some_iff.mp hoid).1
+      simp only [step, hs]
+      rw [if_neg hne]
+      simp only [hoid, Option.map_some]
+      cases hap : applyTo s f.info (List.range' w.heap.length (applyNewVals w f s).length) (some o1) with
+      | mk o e =>
+        rw [hap] at hok
+        simp only at hok
+        subst hok
+        cases e <;> simp only [World.view, List.getElem?_set_self hlt, Option.map_some] <;> rfl
+
 end world
+
+/-! ### non-vacuity: concrete histories meet the hypotheses and the conclusions are not trivial -/
+
+section examples
+
+def exInfo : FieldInfo := { grid := 0, ncell := 2, shape := [2], cls := 0, label := some "a", members := [] }
+
+def exColl : FieldInfo :=
+  { grid := 0, ncell := 2, shape := [3, 2], cls := 3, label := none,
+    members := [⟨some "a", 0, [2], 1⟩, ⟨some "v", 1, [2, 2], 2⟩] }
+
+/-- a `truncate_once` storage: two sessions, the source field is overwritten between the
+appends and a field read back is overwritten too; all three appended snapshots survive, in
+order, and the second session did not truncate -/
+def exOps : List (Op Rat) :=
+  [.newField exInfo [1, 2], .newStore .truncateOnce, .start 0 0, .append 0 0 (some 0),
+   .setField 0 [5, 5], .append 0 0 none, .endW 0, .read 0 0, .setField 1 [9, 9],
+   .start 0 0, .append 0 0 (some (1/2)), .setField 0 [7, 7]]
+
+example : ((run World.empty exOps).view 0).map (·.contents) =
+    some [(0, [1, 2]), (1, [5, 5]), (1/2, [5, 5])] := by decide +kernel
+
+example : ((run World.empty exOps).view 0).map (·.mode) = some Mode.append := by decide +kernel
+
+example : ∀ op ∈ exOps, op.safe = true ∧ ∀ src f, op ≠ .apply src f (some 0) := by
+  intro op hop
+  simp only [exOps, List.mem_cons, List.not_mem_nil, or_false] at hop
+  rcases hop with rfl | rfl | rfl | rfl | rfl | rfl | rfl | rfl | rfl | rfl | rfl | rfl <;>
+    exact ⟨rfl, fun _ _ h => by cases h⟩
+
+/-- `truncate`: the second session drops the first one -/
+example : ((run World.empty ([.newField exInfo [1, 2], .newStore .truncate, .start 0 0,
+    .append 0 0 (some 0), .append 0 0 (some 1), .start 0 0, .append 0 0 (some 3)] : List (Op Rat))).view 0).map
+    (·.contents) = some [(3, [1, 2])] := by decide +kernel
+
+/-- the hypothesis `safe` of `frames_immutable` is needed: a storage built by `from_fields`
+aliases the fields, so a later write to the field changes what the storage returns -/
+example : ((run World.empty ([.newField exInfo [1, 2], .fromFields [0] [0] .append,
+    .setField 0 [8, 8]] : List (Op Rat))).view 0).map (·.contents) = some [(0, [8, 8])] := by
+  decide +kernel
+
+/-- `extract_time_range` shares the frames of its source: a direct write into a frame of the
+extracted storage is visible in the source (documented: "might return a view") -/
+example : ((run World.empty ([.newField exInfo [1, 2], .newStore .truncateOnce, .start 0 0,
+    .append 0 0 (some 0), .append 0 0 (some 1), .extractTimeRange 0 (.pair (some 1) (some 5)),
+    .poke 1 0 [4, 4]] : List (Op Rat))).view 0).map (·.contents) = some [(0, [1, 2]), (1, [4, 4])] := by
+  decide +kernel
+
+/-- ... whereas `extract_field`, `copy` and `apply` hold their own copies -/
+example : ((run World.empty ([.newField exColl [1, 2, 3, 4, 5, 6], .newStore .truncateOnce, .start 0 0,
+    .append 0 0 (some 0), .extractField 0 (.name "v") none, .apply 0 (.scale 2) none, .poke 1 0 [0, 0, 0, 0],
+    .poke 2 0 [0, 0, 0, 0, 0, 0]] : List (Op Rat))).view 0).map (·.contents) =
+    some [(0, [1, 2, 3, 4, 5, 6])] := by decide +kernel
+
+example : ((run World.empty ([.newField exColl [1, 2, 3, 4, 5, 6], .newStore .truncateOnce, .start 0 0,
+    .append 0 0 (some 0), .extractField 0 (.name "v") none, .apply 0 (.scale 2) none] :
+    List (Op Rat))).view 1).map (·.contents) = some [(0, [3, 4, 5, 6])] := by decide +kernel
+
+example : ((run World.empty ([.newField exColl [1, 2, 3, 4, 5, 6], .newStore .truncateOnce, .start 0 0,
+    .append 0 0 (some 0), .extractField 0 (.name "v") none, .apply 0 (.scale 2) none] :
+    List (Op Rat))).view 2).map (·.contents) = some [(0, [2, 4, 6, 8, 10, 12])] := by decide +kernel
+
+/-- the readonly counterexample as a history: the storage is set to `readonly` after a session
+and still accepts `append` (`start_writing` is rejected) -/
+example : (step (run World.empty ([.newField exInfo [1, 2], .newStore .truncateOnce, .start 0 0,
+    .append 0 0 (some 0), .setMode 0 .readonly, .append 0 0 (some 1)] : List (Op Rat))) (.start 0 0)).2.toOption.isNone
+    = true ∧
+    ((run World.empty ([.newField exInfo [1, 2], .newStore .truncateOnce, .start 0 0,
+    .append 0 0 (some 0), .setMode 0 .readonly, .append 0 0 (some 1)] : List (Op Rat))).view 0).map
+    (·.contents) = some [(0, [1, 2]), (1, [1, 2])] := by decide +kernel
+
+/-- searchsorted on sorted times with ties, and on an unsorted list (value of numpy 2.5.3) -/
+example : (bisectLeft ([0, 1, 1, 2, 5] : List Rat) 1, bisectRight ([0, 1, 1, 2, 5] : List Rat) 1) = (1, 3) := by
+  decide +kernel
+example : (bisectLeft ([1/2, 5/2, -1/2, 1/2, 1/2, -5/2, -3] : List Rat) (1/2),
+    bisectRight ([1/2, 5/2, -1/2, 1/2, 1/2, -5/2, -3] : List Rat) (1/2)) = (3, 7) := by decide +kernel
+
+example : ([0, 1, 1, 2, 5] : List Rat).Pairwise (· ≤ ·) := by decide +kernel
+
+end examples
 
 end store
 end PdeVerif.Storage
